@@ -76,15 +76,49 @@ def rmatching(rng: random.Random, pat: str) -> str:
     return s
 
 
+def has_reversed_range(pat: str) -> bool:
+    """Decidable limit of the Lean fnmatch model (FsGlob.classHas): a bracket body with a range `a-b`, a > b.  CPython's
+    `fnmatch.translate` *removes* such an empty range before it looks at the first character of the body, so the
+    removal can expose a `!` (negation) or empty the class; the model treats the range as matching nothing, which is
+    the same set except in that corner (first met by the thorough tier: name '^', pattern '*[^-?!/]').  Such patterns
+    are outside the model's domain: they are counted and not compared (notes/C19.md, Round 6 limits)."""
+    i, n = 0, len(pat)
+    while i < n:
+        if pat[i] != "[":
+            i += 1
+            continue
+        j = i + 1
+        if j < n and pat[j] == "!":
+            j += 1
+        if j < n and pat[j] == "]":
+            j += 1
+        while j < n and pat[j] != "]":
+            j += 1
+        if j >= n:
+            i += 1
+            continue
+        body = pat[i + 1:j]
+        k = 1
+        while k < len(body) - 1:
+            if body[k] == "-" and body[k - 1] > body[k + 1]:
+                return True
+            k += 1
+        i = j + 1
+    return False
+
+
 def micro_fnmatch(ford, drv, rng: random.Random, n: int, rep):
     import ford.fortran_project as fp
 
     real = fp.fnmatch
     reqs, exp = [], []
-    hist = {"match": 0, "no-match": 0, "with-class": 0, "with-star": 0}
+    hist = {"match": 0, "no-match": 0, "with-class": 0, "with-star": 0, "outside-model-domain(reversed range)": 0}
     for _ in range(n):
         pat = rpattern(rng)
         name = rmatching(rng, pat) if rng.random() < 0.7 else rpattern(rng)
+        if has_reversed_range(pat):
+            hist["outside-model-domain(reversed range)"] += 1
+            continue
         r = bool(real(name, pat))
         hist["match" if r else "no-match"] += 1
         hist["with-class"] += "[" in pat
